@@ -28,6 +28,12 @@
 //! `wake()` is preferred when practical.
 
 pub(crate) mod awaiter;
+#[cfg(folo_verif)]
+#[path = "../../testing/verif/sync_shim.rs"]
+mod verif_sync;
+#[cfg(folo_verif)]
+#[doc(hidden)]
+pub mod __verif;
 mod set;
 
 pub use awaiter::Awaiter;
